@@ -211,7 +211,7 @@ def check_explicit(case, ctx: Ctx):
 @st.composite
 def explicit_cases(draw, tier="quick"):
     form = draw(st.sampled_from(["edges_array", "edges_tuple", "edges_list", "pairs", "pairs", "pairs_list",
-                                 "static", "static", "numpy", "fixed", "exp"]))
+                                 "static", "static", "numpy", "fixed", "fixed", "fixed", "exp"]))
     spec = {"form": form}
     if form in ("pairs", "pairs_list", "static"):
         ps = draw(gen.pairs(1, 12))
@@ -220,7 +220,11 @@ def explicit_cases(draw, tier="quick"):
         n = draw(st.integers(1, 10))
         mn = draw(st.integers(-30, 30)) * w * draw(st.sampled_from([1.0, 1.0, 0.5]))
         spec.update(w=w, n=n, min=mn)
-        ps = [[mn + i * w, mn + (i + 1) * w] for i in range(n)]  # only used to place data
+        # the edges as physt computes them ((times_min + i) * width + shift), so that generated values sit
+        # exactly on / one ulp beside the real edges
+        tm = math.floor(mn / w)
+        sh = mn - tm * w
+        ps = [[(tm + i) * w + sh, (tm + i + 1) * w + sh] for i in range(n)]
     elif form == "exp":
         n = draw(st.integers(1, 8))
         log_min = draw(st.sampled_from([-3.0, 0.0, 0.5, 2.0]))
